@@ -166,3 +166,29 @@ def C06(run):
     run.assumptions += ["SHA-1 collisions ignored", "alias import through the manifest reader is not exercised (rename-all models its effect on "
                         "the module protos: prefixModules only renames)", "update policy / value type of a store are not mutation classes "
                         "(the host interface rejects code that does not match them)"]
+
+
+def C15(run):
+    q = run.tier == "quick"
+    run.model_check("MCFilter", "MCFilter_quick.cfg" if q else "MCFilter_thorough.cfg", workers=16)
+    tr = _t(run, "filter.ndjson")
+    info = run.harness("filter", tr)
+    v = run.validate("TraceFilter", tr, xss="512m")
+    run.judge(v, tr, "filter", only="C15:")
+    run.sample(tr, pick={0, 7, 100})
+    run.cov["distinct_nontrivial"] = info["distinct_nontrivial"]
+    run.cov["rule"] = ("filter driver: random filter texts (nested &&, ||, implicit and, parentheses, single/double quoted and bare keys, "
+                       "|| chains up to 15 operands) parsed by the real sqe.Parse; for each a random assignment of 6 keys to 4..11 blocks; "
+                       "1..4 expressions evaluated in a row over the SAME bitmap map (aliasing) with RoaringBitmapsApply, KeysApply, "
+                       "BlockIndex.Skip and BlockIndex.SkipFromKeys; the real AST, the answers and the index content afterwards are "
+                       "judged by Filter.tla. Non-trivial = expression with an operator; distinct by content.")
+    run.assumptions += ["parser precedence is not judged: both evaluators are judged on the AST the real parser produced",
+                        "end-to-end index-present/absent equivalence is exercised by the C01/C07 system driver"]
+    _e2e_part(run, "C15:")
+
+
+def _e2e_part(run, prefix):
+    """Hook for the end-to-end system driver (registered later in this file)."""
+    fn = globals().get("_system_trace")
+    if fn:
+        fn(run, prefix)
